@@ -102,8 +102,11 @@ def make_history(r, force_workers=None):
     for w in range(nw):
         calls = []
         for _ in range(int(r.integers(1, 4))):
-            if r.random() < 0.2:
+            x = r.random()
+            if x < 0.2:
                 calls.append(["stat"])
+            elif x < 0.3:
+                calls.append(["eval", "bad%d" % int(r.integers(0, 2))])  # invalid input: the evaluation raises (sequentially too)
             else:
                 calls.append(["eval", str(r.choice(pool))])
         hist[f"w{w}"] = calls
@@ -135,7 +138,15 @@ def do_call(agg, call, results, w, k):
 
     sched.emit("call_begin", call[0], {"name": call[1] if len(call) > 1 else None, "k": k})
     try:
-        if call[0] == "eval":
+        if call[0] == "eval" and call[1].startswith("bad"):
+            try:
+                agg.evaluate(np.zeros(5, dtype=np.uint8), np.zeros(7, dtype=np.uint8), call[1])  # shapes differ
+                results.append({"w": w, "k": k, "call": call, "ok": True, "invalid_input_accepted": True})
+            except sched.Deadlock:
+                raise
+            except Exception as e:  # noqa: BLE001  (expected: invalid input is rejected)
+                results.append({"w": w, "k": k, "call": call, "ok": True, "rejected": type(e).__name__})
+        elif call[0] == "eval":
             agg.evaluate(*subject_input(call[1]), call[1])
             results.append({"w": w, "k": k, "call": call, "ok": True})
         else:
@@ -158,8 +169,10 @@ def do_call(agg, call, results, w, k):
 # ------------------------------------------------------------------------------------- oracle
 def check_history(ctx, hist, path, events, results, det, feats, order_key="seq"):
     header, exp = expected_rows(ctx)
-    submitted = sorted({c[1] for calls in hist.values() for c in calls if c[0] == "eval"})
-    n_sub = sum(1 for calls in hist.values() for c in calls if c[0] == "eval")
+    submitted = sorted({c[1] for calls in hist.values() for c in calls if c[0] == "eval" and not c[1].startswith("bad")})
+    n_sub = sum(1 for calls in hist.values() for c in calls if c[0] == "eval" and not c[1].startswith("bad"))
+    if any(c[0] == "eval" and c[1].startswith("bad") for calls in hist.values() for c in calls):
+        ctx.count("C16.histories_with_a_failing_evaluation")
     if n_sub > len(submitted):
         ctx.count("C16.collisions_exercised", n_sub - len(submitted))
 
@@ -187,6 +200,8 @@ def check_history(ctx, hist, path, events, results, det, feats, order_key="seq")
         if c > 1:
             return bad("subject_recorded_more_than_once", subject=n, rows=names)
     for r in data:
+        if r and r[0].startswith("bad"):
+            return bad("row_for_a_submission_whose_evaluation_failed", row=r)
         if len(r) != len(header) or r[0] not in exp:
             return bad("torn_or_foreign_row", row=r, expected_columns=len(header))
         if r[0] not in submitted:
@@ -222,7 +237,7 @@ def check_history(ctx, hist, path, events, results, det, feats, order_key="seq")
     end = {(e["pid"], e["w"], e["info"]["k"]): e[order_key] for e in evs if e["op"] == "call_end"}
     eval_calls = {}
     for e in evs:
-        if e["op"] == "call_begin" and e["obj"] == "eval":
+        if e["op"] == "call_begin" and e["obj"] == "eval" and not str(e["info"]["name"]).startswith("bad"):
             k_ = (e["pid"], e["w"], e["info"]["k"])
             eval_calls.setdefault(e["info"]["name"], []).append((e[order_key], end.get(k_)))
     events_cover_rows = set(row_done) == set(names) and len(names) > 0
@@ -421,8 +436,8 @@ def run_processes(ctx, hist, r, split, use_pool, det0, pool_first=False, continu
     if use_pool:
         from panoptica.utils import NonDaemonicPool
 
-        args = [(agg, evdir, seed, split, *subject_input(c[1]), c[1]) for calls in hist.values() for c in calls if c[0] == "eval"]
-        hist = {"pool": [c for calls in hist.values() for c in calls if c[0] == "eval"]}
+        args = [(agg, evdir, seed, split, *subject_input(c[1]), c[1]) for calls in hist.values() for c in calls if c[0] == "eval" and not c[1].startswith("bad")]
+        hist = {"pool": [c for calls in hist.values() for c in calls if c[0] == "eval" and not c[1].startswith("bad")]}
         det["history"] = hist
         try:
             with (pool_obj or NonDaemonicPool(3)) as pool:
@@ -484,7 +499,7 @@ def run_processes(ctx, hist, r, split, use_pool, det0, pool_first=False, continu
         if any(c[0] == "eval" for calls in hist.values() for c in calls):
             ctx.viol("make_statistic_raised_although_rows_were_complete", dict(det, exc=repr(e)[:200], where="parent after all workers returned"), features=dict(feats, kind="make_statistic_raised_although_rows_were_complete"))
             return
-    want = {c[1] for calls in hist.values() for c in calls if c[0] == "eval"}
+    want = {c[1] for calls in hist.values() for c in calls if c[0] == "eval" and not c[1].startswith("bad")}
     if seen is not None and not want <= seen:
         ctx.viol("snapshot_misses_a_row_complete_before_the_call", dict(det, snapshot=sorted(seen), complete_before=sorted(want), where="parent after all workers returned"),
                  features=dict(feats, kind="snapshot_misses_a_row_complete_before_the_call"))
